@@ -196,6 +196,23 @@ def cases(tier, rng):
 
     for kind in ("hex", "planestrain", "axisymmetric"):
         yield "pressure-" + kind, lambda kind=kind: (lambda fb: (fem.SolidBodyPressure(fb, pressure=0.75), fb, False, False))(pressure(kind))
+
+    class CallKw:
+        """an item whose vector and matrix are always requested with a call-time keyword (here: the pressure of THIS call, different
+        from the stored one)"""
+        def __init__(self, item, **kw):
+            self.item, self.kw = item, kw
+            outer = self
+
+            class A:
+                def vector(self, field=None, **k):
+                    return outer.item.assemble.vector(field, **outer.kw, **k)
+
+                def matrix(self, field=None, **k):
+                    return outer.item.assemble.matrix(field, **outer.kw, **k)
+            self.assemble = A()
+
+    yield "pressure-hex-callkeyword", lambda: (lambda fb: (CallKw(fem.SolidBodyPressure(fb, pressure=0.25), pressure=0.625), fb, False, False))(pressure("hex"))
     yield "cauchystress-hex", lambda: (lambda fb: (fem.SolidBodyCauchyStress(fb, cauchy_stress=np.array([[0.5, 0.25, 0], [0.25, -0.5, 0.125], [0, 0.125, 1.0]])), fb, False, False))(pressure("hex"))
 
     def mpcfield():
@@ -493,20 +510,33 @@ def c14(out, a):
                 out.write({"id": rid, "kind": "pointload2", "nt": True, "fd": 2, "f": q(item.assemble.vector(f).toarray()[:, 0], S),
                            "pts": [int(p_) + 1 for p_ in pts], "vals": qi(seq[-1]), "axi": bool(axi), "r8": qi(np.rint(mesh.points[pts, 1] * 8))})
         # follower pressure: on one face and on the closed surface
-        for where in ("face", "closed"):
+        for where in ("face", "closed", "face-kw", "face-update"):
             rid = "pressure-%s-%d" % (where, rep)
             if not out.want(rid):
                 continue
             m = perturb(fem.Cube(n=3), rng)
             f = state(fem.FieldContainer([fem.Field(fem.RegionHexahedron(m), dim=3)]), rng)
+            how = where.split("-")[1] if "-" in where else "ctor"          # how the pressure is supplied: constructor / call keyword / update()
+            where = where.split("-")[0]
             kw = {} if where == "closed" else {"mask": m.points[:, 0] == 1.0}
             rb = fem.RegionHexahedronBoundary(m, **kw)
             fb = fem.FieldContainer([fem.Field(rb, dim=3)])
             fb.link(f)
             pnum = int(rng.randint(1, 8))
-            item = fem.SolidBodyPressure(fb, pressure=pnum / 8.0)
+            if how == "ctor":
+                item = fem.SolidBodyPressure(fb, pressure=pnum / 8.0)
+                fvec = item.assemble.vector(fb)
+            elif how == "kw":           # another value stored, the value of THIS call given as keyword
+                item = fem.SolidBodyPressure(fb, pressure=(pnum + 3) / 8.0)
+                item.assemble.vector(fb)
+                fvec = item.assemble.vector(fb, pressure=pnum / 8.0)
+            else:
+                item = fem.SolidBodyPressure(fb, pressure=(pnum + 3) / 8.0)
+                item.assemble.vector(fb)
+                item.update(pnum / 8.0)
+                fvec = item.assemble.vector(fb)
             out.write({"id": rid, "kind": "pressure", "nt": True, "fd": 3, "S": S, "XS": XS, "pnum": pnum, "pden": 8,
-                       "f": q(item.assemble.vector(fb).toarray()[:, 0], S), "x": positions(f, 3), "faces": [qi(c) for c in rb.mesh.cells_faces],
+                       "f": q(fvec.toarray()[:, 0], S), "x": positions(f, 3), "faces": [qi(c) for c in rb.mesh.cells_faces],
                        "centre4": qi(np.rint(4 * XS * (m.points + f[0].values).mean(axis=0)))})
         # multi-point constraint forces are self-equilibrated
         rid = "balance-mpc-%d" % rep
@@ -534,7 +564,7 @@ def c14(out, a):
                 out.write({"id": rid, "kind": "balance", "nt": bool(np.any(fv != 0)), "fd": 3, "f": q(fv, S), "x": positions(f, 3),
                            "XS": XS, "dirs": [1, 2, 3], "moment": False, "about": [0, 0, 0], "skipped": [k + 1 for k in range(3) if skip[k]]})
         # mass matrices
-        for kind in ("hex1", "quad", "hex", "hex-ni"):
+        for kind in ("hex1", "quad", "hex", "hex-ni", "hex-arg", "hex-ni-arg"):
             rid = "mass-%s-%d" % (kind, rep)
             if not out.want(rid):
                 continue
@@ -543,7 +573,7 @@ def c14(out, a):
                 m = fem.Cube(b=(2, 1, 1), n=2)
                 f = fem.FieldContainer([fem.Field(fem.RegionHexahedron(m), dim=3)])
                 V = 2.0
-            elif kind in ("hex", "hex-ni"):
+            elif kind in ("hex", "hex-ni", "hex-arg", "hex-ni-arg"):
                 m = perturb(fem.Cube(n=3), rng)
                 f = fem.FieldContainer([fem.Field(fem.RegionHexahedron(m), dim=3)])
                 V = 1.0
@@ -551,11 +581,13 @@ def c14(out, a):
                 m = perturb(fem.Rectangle(b=(2, 1), n=3), rng)
                 f = fem.FieldContainer([fem.FieldPlaneStrain(fem.RegionQuad(m), dim=2)])
                 V = 2.0
-            if kind == "hex-ni":
-                item = fem.SolidBodyNearlyIncompressible(fem.NeoHooke(mu=1.25), f, bulk=20.0, density=rho)
+            # "-arg": the density of THIS call is given as argument and differs from the stored one
+            rho_ctor = rho if not kind.endswith("-arg") else rho + 1.5
+            if kind.startswith("hex-ni"):
+                item = fem.SolidBodyNearlyIncompressible(fem.NeoHooke(mu=1.25), f, bulk=20.0, density=rho_ctor)
             else:
-                item = fem.SolidBody(fem.NeoHooke(mu=1.25, bulk=2.0), f, density=rho)
-            M = item.assemble.mass().toarray()
+                item = fem.SolidBody(fem.NeoHooke(mu=1.25, bulk=2.0), f, density=rho_ctor)
+            M = (item.assemble.mass(density=rho) if kind.endswith("-arg") else item.assemble.mass()).toarray()
             n = M.shape[0]
             fd = f[0].dim
             block = list(range(1, n + 1, fd))[:8]
